@@ -2,7 +2,9 @@
 from . import common as C
 
 HEADER = 'From WM Require Import Base.Prelude Message.Model Message.Conc Message.Monitor Corr.C03.\n'
-CTOR = ['CtorNew', 'CtorCopy', 'CtorZero']
+# harness constructors 3 and 4 are NewMessage + an already cancelled / expired context: the model is context-free, they are CtorNew
+CTOR = ['CtorNew', 'CtorCopy', 'CtorZero', 'CtorNew', 'CtorNew']
+CTORN = ['NewMessage', 'Copy of a nacked message', 'zero value', 'NewMessage with a cancelled context', 'NewMessage with an expired deadline']
 OP = ['OpAck', 'OpNack', 'OpReadAcked', 'OpReadNacked']
 RES = ['(RBool false)', '(RBool true)', 'RClosed', 'RBlocks', 'RPanic']
 OPN = ['Ack', 'Nack', 'readAcked', 'readNacked']
@@ -53,7 +55,7 @@ def check_seq_cases(pid, name, cases, res):
         for c in chunk:
             if 5 in c[2]:
                 res.violations.append(dict(signature='C03/call-does-not-return', what='a call on a message did not return within the watchdog',
-                                           case=dict(ctor=CTOR[c[0]], ops=[OPN[o] for o in c[1]])))
+                                           case=dict(ctor=CTORN[c[0]], ops=[OPN[o] for o in c[1]])))
             else:
                 ok_chunk.append(c)
         if not ok_chunk:
@@ -64,12 +66,12 @@ def check_seq_cases(pid, name, cases, res):
         for i in r['R_vio']:
             c = ok_chunk[i]
             res.violations.append(dict(signature='C03/seq-first-wins', what='sequential history rejected by the first-wins acceptor',
-                                       case=dict(ctor=CTOR[c[0]], ops=[OPN[o] for o in c[1]], observed=[RESN[x] for x in c[2]])))
+                                       case=dict(ctor=CTORN[c[0]], ops=[OPN[o] for o in c[1]], observed=[RESN[x] for x in c[2]])))
         for i in r['R_mis']:
             c = ok_chunk[i]
             res.mismatches.append(dict(kind='Corr.C03.seq_mismatch (Message/Model.v run vs message.go)',
                                        explained_by_violation=i in r['R_vio'],
-                                       case=dict(ctor=CTOR[c[0]], ops=[OPN[o] for o in c[1]], observed=[RESN[x] for x in c[2]])))
+                                       case=dict(ctor=CTORN[c[0]], ops=[OPN[o] for o in c[1]], observed=[RESN[x] for x in c[2]])))
 
 def map_conc_case(case):
     """stamps -> model schedule (list of tids), per-thread results, stamped calls."""
@@ -134,7 +136,7 @@ def conc_case_term(case, sched, results, calls):
         C.coq_list(['(Call %s %s %s %s)' % (C.coq_N(c['inv']), C.coq_N(c['ret']), OP[c['op']], RES[min(c['res'], 4)]) for c in calls])))
 
 def describe_conc(case, calls):
-    return dict(ctor=CTOR[case['ctor']], programs=[[OPN[o] for o in p] for p in case['progs']],
+    return dict(ctor=CTORN[case["ctor"]], programs=[[OPN[o] for o in p] for p in case['progs']],
                 calls=[dict(thread=c['tid'], op=OPN[c['op']], invoked_at=c['inv'], returned_at=c['ret'], result=RESN[c['res']],
                             locked_at=c.get('locked'), unlock_at=c.get('unlock')) for c in calls])
 
@@ -146,7 +148,7 @@ def check_conc_cases(pid, name, cases, res):
     for case in cases:
         if case.get('hung'):
             res.violations.append(dict(signature='C03/call-does-not-return', what='concurrent Ack/Nack/read calls did not all return within 5 s',
-                                       case=dict(ctor=CTOR[case['ctor']], programs=case['progs'])))
+                                       case=dict(ctor=CTORN[case["ctor"]], programs=case['progs'])))
             continue
         m = map_conc_case(case)
         if m is None:
@@ -180,15 +182,15 @@ def run(ctx, conc_cases=None, seed_offset=0):
     allops = enumerate_ops(maxlen)
     for h in data.get('hung') or []:
         res.violations.append(dict(signature='C03/call-does-not-return', what='a call on a message did not return within the 2 s watchdog (sequential use)',
-                                   case=dict(ctor=CTOR[h['ctor']], ops=[OPN[o] for o in h['ops']])))
+                                   case=dict(ctor=CTORN[h["ctor"]], ops=[OPN[o] for o in h['ops']])))
     if data.get('hung'):
         res.evaluations += len(data['hung'])
         res.rule = 'aborted: calls block'
         return res
     model = C.coq_eval(pid, 'sweep', HEADER, [('R_%d' % c, 'sweep %s %d' % (CTOR[c], maxlen)) for c in range(3)])
     bad = []
-    for c in range(3):
-        impl = data['sweep'][c]; mod = model['R_%d' % c]
+    for c in range(len(data['sweep'])):
+        impl = data['sweep'][c]; mod = model['R_%d' % (c if c < 3 else 0)]
         if len(impl) != len(mod) or len(impl) != len(allops):
             raise C.CheckError('sweep sizes differ: %d %d %d' % (len(impl), len(mod), len(allops)))
         for i, (a, b) in enumerate(zip(impl, mod)):
@@ -197,7 +199,7 @@ def run(ctx, conc_cases=None, seed_offset=0):
                 res.nontrivial.add(('seq', c, tuple(allops[i])))
             if a != b:
                 bad.append((c, allops[i], unpack(a)))
-    res.extra['sweep'] = dict(exhaustive=True, max_length=maxlen, sequences_per_constructor=len(allops), constructors=3)
+    res.extra['sweep'] = dict(exhaustive=True, max_length=maxlen, sequences_per_constructor=len(allops), constructors=len(data['sweep']))
     res.sample(dict(kind='sequential sweep', ctor='CtorZero', ops=[OPN[o] for o in allops[-1]], observed=[RESN[x] for x in unpack(data['sweep'][2][-1])]))
     if bad:
         check_seq_cases(pid, 'seqbad', bad[:3000], res)   # classify: monitor verdict + mismatch record
@@ -238,6 +240,10 @@ def run(ctx, conc_cases=None, seed_offset=0):
                 'concurrent: 2..16 goroutines with random programs and seeded yields inside the critical section; '
                 'non-trivial = at least two Ack/Nack calls overlap in real time; distinct by model schedule.' % maxlen)
     # ---- copies taken while the source is being settled are fresh, independent messages
+    lf, _ = C.run_harness(binary, ['c03life', '-seed', str(seed)], pid, 'c03life.json', timeout=120)
+    res.evaluations += lf['checked']; res.count('channels re-read after later messages were settled', lf['checked'])
+    for w in lf['wrong'][:2]:
+        res.violations.append(dict(signature='C03/settled-message-affected-by-later-messages', what=w, case=lf))
     try:
         cp, _ = C.run_harness(binary, ['c03copy', '-n', '3000' if tier == 'quick' else '30000'], pid, 'c03copy.json', timeout=120)
     except Exception as e:   # the driver itself hung: some Ack/Nack call never returned
